@@ -274,3 +274,112 @@ def c05_8(I, shape):
     I.check(bad == [], "no-discarded-generator-call",
             detail=lambda: bad)
     I.check("_sendError" in gens and len(gens) > 10, "generator-set-found")
+
+
+# ---------------------------------------------------------------------------
+# C05.2  a peer that cannot produce the signature never gets its chain
+#        recorded (live pair, corrupt signing oracle)
+# ---------------------------------------------------------------------------
+from models import pair as P
+from models.hello import RSA_KEY, EC_KEY
+
+PAIR_RND5 = P.RandomSource(None, concrete=True)
+MODES = ("arbitrary", "bitflip", "other-key", "other-transcript", "empty",
+         "short", "long")
+
+
+def _pair_patches5(shape):
+    P.ModelKEX.rnd = PAIR_RND5
+    return (P.pair_proxies(), P.pair12_stubs(PAIR_RND5))
+
+
+def _shapes_c05_2(tier):
+    out = []
+    for scen in ("tls13", "tls12-ecdhe", "tls12-dhe", "tls10-ecdhe",
+                 "tls12-ecdsa"):
+        for liar in ("server", "client"):
+            for mode in MODES:
+                out.append(dict(scenario=scen, liar=liar, mode=mode))
+    return out
+
+
+def _settings5(scen):
+    if scen == "tls13":
+        return P.settings13()
+    if scen == "tls12-ecdhe":
+        return P.settings12((3, 3), "ecdhe_rsa", "aes128gcm")
+    if scen == "tls12-dhe":
+        return P.settings12((3, 3), "dhe_rsa", "aes128gcm")
+    if scen == "tls10-ecdhe":
+        return P.settings12((3, 1), "ecdhe_rsa", "aes128", "sha")
+    if scen == "tls12-ecdsa":
+        return P.settings12((3, 3), "ecdhe_ecdsa", "aes128gcm")
+    raise ValueError(scen)
+
+
+@obligation("C05.2", _shapes_c05_2,
+            functions=["tlslite.tlsconnection:TLSConnection."
+                       "_clientTLS13Handshake",
+                       "tlslite.tlsconnection:TLSConnection."
+                       "_serverTLS13Handshake",
+                       "tlslite.tlsconnection:TLSConnection."
+                       "_clientKeyExchange",
+                       "tlslite.tlsconnection:TLSConnection."
+                       "_serverCertKeyExchange",
+                       "tlslite.keyexchange:KeyExchange."
+                       "verifyServerKeyExchange",
+                       "tlslite.keyexchange:KeyExchange.calcVerifyBytes",
+                       "tlslite.keyexchange:KeyExchange."
+                       "makeCertificateVerify"],
+            assumes=P.PAIR_ASSUMES + [
+                "the dishonest side runs the real handshake code with a "
+                "signing oracle that does not hold the certificate's key: "
+                "its output is an arbitrary string different from the "
+                "genuine signature, a bit flip of it, a signature by "
+                "another key, a signature over another transcript, empty, "
+                "one byte short or one byte long; its self-check is "
+                "disabled",
+                "unforgeability: verify() under key k holds only for data "
+                "signed by the holder of k; signatures of different keys / "
+                "data do not collide; fixed randoms"],
+            patches=_pair_patches5, max_paths=400, timeout=(600, 1800),
+            also=("C04",))
+def c05_2(I, shape):
+    """when the peer's CertificateVerify / ServerKeyExchange signature is not
+    a valid signature by the presented end-entity key over this handshake,
+    the verifying side never completes and records no peer chain"""
+    scen, liar, mode = shape["scenario"], shape["liar"], shape["mode"]
+    cset, sset = _settings5(scen), _settings5(scen)
+    srv_cred = "ecdsa" if scen == "tls12-ecdsa" else "rsa"
+    cli_cred = "rsa" if scen == "tls12-ecdsa" else "ecdsa"
+    real = {"rsa": RSA_KEY, "ecdsa": EC_KEY}
+    kw = dict(server_cred=srv_cred, client_cred=cli_cred, req_cert=True,
+              intctxt=True, euf=True)
+    if liar == "server":
+        other = P.ModelKey(real[cli_cred], "cli")
+        kw["skey"] = P.CorruptKey(real[srv_cred], "srv", mode, I, other)
+    else:
+        other = P.ModelKey(real[srv_cred], "srv")
+        kw["ckey"] = P.CorruptKey(real[cli_cred], "cli", mode, I, other)
+    sc = P.Scenario(I, PAIR_RND5, cset, sset, **kw)
+    sc.run()
+    P.distinct_keys_assumption()
+    victim_ep = sc.cep if liar == "server" else sc.sep
+    victim = victim_ep.conn
+    corrupt = kw.get("skey") or kw.get("ckey")
+    if len(corrupt.signed) == 0:
+        I.cover("no-signature-requested")
+        I.check(False, "the-proof-site-was-exercised")
+        return
+    I.check(victim_ep.crash is None, "no-raw-exception-from-the-handshake",
+            detail=lambda: dict(tb=victim_ep.crash))
+    I.check(not sc.completed(victim_ep),
+            "handshake-does-not-complete-without-a-valid-proof",
+            detail=lambda: dict(error=repr(victim_ep.error)))
+    se = victim.session
+    chain = None
+    if se is not None:
+        chain = se.serverCertChain if liar == "server" else \
+            se.clientCertChain
+    I.check(chain is None or not sc.completed(victim_ep),
+            "no-peer-chain-recorded")
